@@ -17,7 +17,9 @@ RULE = ("Hypothesis-generated deep loci (pile-ups joined by bridge reads, valley
         "scenarios with all flag/MAPQ combinations x {default, --high_memory} x {annotation, none} x --no_secondary / "
         "--min_mapq. Non-trivial = the cluster was processed in >= 2 regions (from --debug log, used only to "
         "classify) and a read lies within 256 bp of a region edge, or a one-bin pile-up of >= 1024 reads, or the flag stage contains secondary + "
-        "supplementary + unmapped + low-MAPQ records; distinct by scenario hash.")
+        "supplementary + unmapped + low-MAPQ records; distinct by scenario hash. Templates added later: front_cluster "
+        "(a small cluster ending in the bin in which the split cluster begins with short reads), placed unmapped "
+        "records, multi-mapped reads outside genes, one-base alignments.")
 ASSUMPTIONS = ["documented filters: unmapped, supplementary, --min_mapq, --no_secondary, inconsistent MAPQ < 5 "
                "(annotated), <=2-exon alignments with MAPQ < 1 or secondary in gene-free regions",
                "reads with another alignment may be suppressed by multi-mapper resolution (MAY, not MUST)"]
